@@ -46,11 +46,47 @@ def rerun(ctx, case):
     return sorted({key_for(n, l) for n, l in validate(ctx, tf)})
 
 
+def pd_key(d):
+    """which router decided otherwise: the first run / step at which the observed path leaves the prescribed one"""
+    where = "status"
+    for i, (e, g) in enumerate(zip(d["expected"], d["got"])):
+        if e["path"] != g["path"]:
+            k = next((j for j, (a, b) in enumerate(zip(e["path"], g["path"])) if a != b), min(len(e["path"]), len(g["path"])))
+            where = f"run{'1' if i == 0 else 'N'}-{'last' if k >= len(e['path']) - 1 else 'inner'}-step"
+            break
+    else:
+        if len(d["expected"]) != len(d["got"]):
+            where = "number-of-runs"
+    return f"PathAsPrescribed call={d['op']}({d['kind']}) first-difference={where} expected-status={d['expected_status']} got-status={d['got_status']}"
+
+
+def session_routes(ctx, behfile, label):
+    """behaviours exported by TLC from Engine.tla, replayed: (path-drift lines, number of calls)"""
+    outs, st = ctx.shards("eng-replay", behfile, os.path.join(ctx.work, f"sess_{label}.trace"), extra=["-pathdrift"])
+    errors = sum(s.get("errors", 0) for s in st)
+    if errors:
+        raise vlib.Infra(f"{errors} behaviours could not be materialised: {[e for s in st for e in (s.get('drift_examples') or [])][:2]}")
+    pds = []
+    for o in outs:
+        if os.path.exists(o + ".pd"):
+            pds += [json.loads(l) for l in open(o + ".pd")]
+    return pds, sum(s.get("calls", 0) for s in st), sum(s.get("behaviours", 0) for s in st)
+
+
+def rerun_session(ctx, case):
+    d = os.path.join(ctx.work, "confirm")
+    os.makedirs(d, exist_ok=True)
+    bf = os.path.join(d, "b.ndjson")
+    open(bf, "w").write(json.dumps(case["behaviour"]) + "\n")
+    pds, _, _ = session_routes(ctx, bf, "confirm")
+    return sorted({pd_key(p) for p in pds})
+
+
 def run(ctx):
     vlib.build_harness()
     if ctx.replay:
         rep = json.load(open(ctx.replay))
-        if rep["key"] in rerun(ctx, rep["case"]):
+        if rep["key"] in (rerun_session(ctx, rep["case"]) if rep["case"].get("behaviour") else rerun(ctx, rep["case"])):
             print(f"VIOLATION property=C07 replay={ctx.replay}")
             return 1
         vlib.log("replay: not reproduced on the current tree")
@@ -92,8 +128,41 @@ def run(ctx):
         if key not in known and key not in rerun(ctx, case):
             raise vlib.Infra(f"violation {key} from {line['src']} did not reproduce in a fresh process")
         ctx.violation(key, f"{name} fails for router {line['desc'][:300]}: observed {json.dumps(line['obs'])}", case)
+    # routers inside sessions: the exits taken by every node of every run, at the start and at every kind of resume
+    # (also the router of a parent's enter_flow node, reached when a resume ends the child in the same sprint), against
+    # the paths Engine.tla prescribes for the same definition and the same answers
+    from checks import engine_family as ef
+    splans = [("c07-2x1", dict(ef.BASE, NNodes="1", MaxSteps="3", MaxCalls="3", TrigKinds='{"manual", "msg"}'), None),
+              ("c07-2x2", dict(ef.BASE), 120 if q else 3000),
+              ("c07-3nodes", dict(ef.BASE, NFlows="1", NNodes="3", MaxCalls="5", MaxResumes="3"), 60 if q else 1500)]
+    scalls = sbeh = 0
+    pd_by_key = {}
+    for label, consts, num in splans:
+        bf = os.path.join(ctx.work, f"beh_{label}.ndjson")
+        ctx.tlc("EngineGen", "EngineGenSim.cfg", constants=dict(consts, OutFile=json.dumps(bf)), timeout=2400,
+                simulate=(f"num={num}" if num else None), depth=80 if num else None, workers=None if num is None else 8)
+        if not os.path.exists(bf):
+            raise vlib.Infra(f"TLC exported no behaviours for {label}")
+        pds, nc, nb = session_routes(ctx, bf, label)
+        scalls += nc
+        sbeh += nb
+        for p in pds:
+            pd_by_key.setdefault(pd_key(p), p)
+    for key, p in sorted(vlib.limit_new(pd_by_key, "C07").items()):
+        path, idx = p["src"].rsplit("#", 1)
+        with open(path) as f:
+            for i, l in enumerate(f):
+                if i == int(idx):
+                    beh = json.loads(l)
+                    break
+        case = dict(behaviour=beh, pred="C07.PathAsPrescribed", line=p)
+        if key not in known and key not in rerun_session(ctx, case):
+            raise vlib.Infra(f"path difference {key} from {p['src']} did not reproduce in a fresh process")
+        ctx.violation(key, f"C07.PathAsPrescribed: after call {p['call']} {p['op']}({p['kind']}, answer {p['choice']}) of {p['src']} the runs took "
+                           f"{json.dumps(p['got'])} where the definition prescribes {json.dumps(p['expected'])}", case)
     all_lines = open(tracefile).read().splitlines()
-    cov = dict(states=ctx.states, transitions=ctx.transitions, traces_validated_against_impl=nlines,
+    cov = dict(session_behaviours_replayed=sbeh, session_calls_compared_with_prescribed_paths=scalls, session_path_differences=len(pd_by_key),
+               states=ctx.states, transitions=ctx.transitions, traces_validated_against_impl=nlines,
                samples=[json.loads(l) for l in vlib.sample(all_lines, 3)],
                enumerated_cases=ncases, enumerated_family_exhaustive=True, random_routers_over_all_registered_tests=sum(s.get("cases", 0) for s in rst),
                with_a_matching_case=sum(1 for l in all_lines if '"m":true' in l), drift=drift, drift_examples=drift_ex,
